@@ -135,8 +135,24 @@ def _case_worker_inner(case):
         if case.get("attr"):
             seen_cmd = {}
             for idx, (_, _, meta) in enumerate(real):
+                prev = {it["id"]: it for it in ((real[idx - 1][2] or {}).get("attr", []) if idx > 0 else [])}
                 for item in (meta or {}).get("attr", []):
-                    for kind, cmd in attr_cmds(item):
+                    extra = []
+                    if item["skip"] and "seeds" in item and "seeds" not in prev.get(item["id"], {}) and all("*" not in x for x in item["seeds"]):
+                        # the documented exclusion rule of skip nodes, evaluated on the state before this op
+                        pns, _ = parse_dump(real[idx - 1][1])
+                        excl = []
+                        for j, other in enumerate(pns):
+                            if j == item["id"] or _subspace_s(item["space"], other["space"]):
+                                continue
+                            pj = prev.get(j, {})
+                            if pj.get("cands") == [] or pj.get("seeds") == []:
+                                x = _intersect_s(item["space"], other["space"])
+                                if x is not None:
+                                    excl.append(x)
+                        av = ";".join(item["motifs"] + excl) or "-"
+                        extra.append(("skiprule", f"chk seeds {item['space']} {av} {','.join(item['seeds']) or '-'}"))
+                    for kind, cmd in attr_cmds(item) + extra:
                         if cmd is None:
                             chk_index.append((idx, item["id"], kind, None)); continue
                         if cmd not in seen_cmd:
@@ -166,6 +182,17 @@ def _case_worker_inner(case):
         raise
     except Exception as e:  # harness error: reported, never silently dropped
         return {"case": case, "error": traceback.format_exc()}
+
+def _subspace_s(x, y):
+    return all(b == "*" or a == b for a, b in zip(x, y))
+
+def _intersect_s(x, y):
+    out = []
+    for a, b in zip(x, y):
+        if a != "*" and b != "*" and a != b:
+            return None
+        out.append(a if a != "*" else b)
+    return "".join(out)
 
 def vs_states(sd, vs, nm):
     out = []
